@@ -2,6 +2,7 @@ import XzVerif.Proofs.Segment
 import XzVerif.Proofs.GoSrcHash
 import XzVerif.Proofs.GoSrcHash2
 import XzVerif.Proofs.GoSrcTree2
+import XzVerif.Proofs.GoSrcTree3
 import XzVerif.Proofs.Tables
 import XzVerif.Proofs.XzRoundTrip
 import XzVerif.Proofs.Select
@@ -302,6 +303,20 @@ theorem C01_source_bintree_walkers (fuel : Nat) (g : GoSrc.T_binTree) (t : BT.Tr
   ⟨fun hv hf => GoSrcP.binTree_distance_spec g t rel v hv hf,
    fun hv ht => GoSrcP.binTree_max_spec fuel g t rel v hv hfuel ht,
    fun hv ht => GoSrcP.binTree_min_spec fuel g t rel v hv hfuel ht⟩
+
+/-- `binTree.pred` / `succ` from the source (in-order neighbours: extreme node of a subtree, else climb the parent links) are
+    the model's on a tree with acyclic parent links (a rank decreasing towards the root) — the iterators of `NextOp` -/
+theorem C01_source_bintree_neighbours (fuel : Nat) (g : GoSrc.T_binTree) (t : BT.Tree) (rel : GoSrcP.BTRel g t) (v : BitVec 32)
+    (hv : v.toNat = BT.null ∨ v.toNat < t.node.size) (hfuel : t.node.size + 3 ≤ fuel)
+    (wp : ∀ i, i < t.node.size → (t.nd i).p = BT.null ∨ (t.nd i).p < t.node.size)
+    (rank : Nat → Nat) (hrb : ∀ i, rank i ≤ t.node.size)
+    (hrank : ∀ i, i < t.node.size → (t.nd i).p ≠ BT.null → rank (t.nd i).p < rank i) :
+    ((∀ u, u < t.node.size → (t.nd (t.max u)).r = BT.null) →
+      GoSrc.binTree_pred fuel g v = Go.Res.ok (BitVec.ofNat 32 (t.pred v.toNat))) ∧
+    ((∀ u, u < t.node.size → (t.nd (t.min u)).l = BT.null) →
+      GoSrc.binTree_succ fuel g v = Go.Res.ok (BitVec.ofNat 32 (t.succ v.toNat))) :=
+  ⟨fun ht => GoSrcP.binTree_pred_spec fuel g t rel v hv hfuel wp rank hrb hrank ht,
+   fun ht => GoSrcP.binTree_succ_spec fuel g t rel v hv hfuel wp rank hrb hrank ht⟩
 
 theorem C01_source_translation_complete : GoSrc.failures = [] := by decide
 
